@@ -191,6 +191,14 @@ impl Exec {
 
     /// `as_parts`: hand the request to `streaming_body` as `http::request::Parts`.
     pub fn new_repr(cfg: &Config, method: &str, as_parts: bool) -> Result<Exec, String> {
+        Exec::new_calls(cfg, method, as_parts, &[])
+    }
+
+    /// As `new_repr`, but the builder is first configured with `pre` -- a sequence of earlier
+    /// `with_gzip_level(Some(l))` / `with_chunk_size(None -> a dummy size)` calls whose values are
+    /// then overridden by the final `with_chunk_size(cfg.chunk).with_gzip_level(cfg.level)`: only
+    /// the last setting of each knob may matter.
+    pub fn new_calls(cfg: &Config, method: &str, as_parts: bool, pre: &[Option<u32>]) -> Result<Exec, String> {
         let mut rb = http::Request::builder().method(method).uri("/");
         if let Some(a) = &cfg.accept {
             rb = rb.header(
@@ -200,18 +208,19 @@ impl Exec {
         }
         let req = rb.body(()).map_err(|e| e.to_string())?;
         let (resp, w) = catch_unwind(AssertUnwindSafe(|| {
-            if as_parts {
+            let mut b = if as_parts {
                 let (parts, _) = req.into_parts();
                 http_serve::streaming_body(&parts)
-                    .with_chunk_size(cfg.chunk)
-                    .with_gzip_level(cfg.level)
-                    .build::<VBuf, HErr>()
             } else {
                 http_serve::streaming_body(&req)
-                    .with_chunk_size(cfg.chunk)
-                    .with_gzip_level(cfg.level)
-                    .build::<VBuf, HErr>()
+            };
+            for c in pre {
+                b = match c {
+                    Some(l) => b.with_gzip_level(*l),
+                    None => b.with_chunk_size(12345),
+                };
             }
+            b.with_chunk_size(cfg.chunk).with_gzip_level(cfg.level).build::<VBuf, HErr>()
         }))
         .map_err(crate::drive::panic_msg)?;
         let resp_headers: Vec<(String, Vec<u8>)> = resp
@@ -1173,7 +1182,15 @@ pub fn long_runs(prop: &str, tier: Tier, gzip_level: Option<u32>, extra_polls: u
                         Some(l) => (Some("gzip".to_string()), l, if n % 2 == 0 { Payload::Rep } else { Payload::Rand }),
                         None => (None, 6, Payload::Rand),
                     };
-                    cases.push((Config { chunk: c, level, accept, payload }, ops));
+                    let cfg = Config { chunk: c, level, accept, payload };
+                    // the same run followed by "flush, poll until Pending, one more byte": with the
+                    // writer still alive, everything flushed must come out before a Pending
+                    if !u.contains(&Op::PP) && (k <= 10 || k % 16 <= 1 || k >= 64) {
+                        let mut t = ops.clone();
+                        t.extend([Op::F, Op::PP, Op::W(1), Op::P]);
+                        cases.push((cfg.clone(), t));
+                    }
+                    cases.push((cfg, ops));
                 }
             }
         }
